@@ -38,7 +38,7 @@ let s_outcome = function
 let s_slot (nd : node) =
   Printf.sprintf "%d %s %s %s %s %s %s" (int_of_z nd.stamp)
     (match nd.data with Data v -> "D" ^ string_of_int (int_of_n v) | NextFree o -> "F" ^ s_onat o)
-    (s_oid nd.parent) (s_oid nd.prev) (s_oid nd.next) (s_oid nd.first) (s_oid nd.last)
+    (s_oid nd.parent) (s_oid nd.prev) (s_oid nd.next) (s_oid nd.first) (s_oid (node_last nd))
 
 let s_arena (a : arena) =
   let b = Buffer.create 256 in
@@ -199,16 +199,354 @@ let process (line : string) : string option =
       Some ("x" ^ s_payloads c ^ " ;" ^ s_payloads a)
   | _ -> Some ("? " ^ line)
 
+
+(* ====================================================================================
+   Monitor mode: evaluate the property statements (extracted from coq/theories/Monitor.v)
+   on the states OBSERVED ON THE IMPLEMENTATION.  Input: the ops file and the
+   implementation's observation file, line by line in lockstep.
+   ==================================================================================== *)
+let split_on_string (sep : string) (s : string) : string list =
+  let n = String.length sep and l = String.length s in
+  let rec go start i acc =
+    if i + n > l then List.rev (String.sub s start (l - start) :: acc)
+    else if String.sub s i n = sep then go (i + n) (i + n) (String.sub s start (i - start) :: acc)
+    else go start (i + 1) acc in
+  go 0 0 []
+
+let p_id (t : string) : nid =
+  match String.split_on_char ':' t with
+  | [i; g] -> { idx = nat_of_int (int_of_string i - 1); gen = z_of_int (int_of_string g) }
+  | _ -> failwith ("bad id " ^ t)
+let p_oid t = if t = "-" then None else Some (p_id t)
+let p_onat t = if t = "-" then None else Some (nat_of_int (int_of_string t))
+
+let p_slot (t : string) : node =
+  match String.split_on_char ' ' (String.trim t) with
+  | [st; d; pa; pv; nx; fc; lc] ->
+      let data = if d.[0] = 'D' then Data (n_of_int (int_of_string (String.sub d 1 (String.length d - 1))))
+                 else NextFree (p_onat (String.sub d 1 (String.length d - 1))) in
+      mk_node (p_oid pa) (p_oid pv) (p_oid nx) (p_oid fc) (p_oid lc) (z_of_int (int_of_string st)) data
+  | _ -> failwith ("bad slot " ^ t)
+
+let p_arena (line : string) : arena option =
+  match split_on_string " | " line with
+  | hd :: slots ->
+      (match String.split_on_char ' ' hd with
+       | ["a"; _; ff; lf] -> (try Some { nodes = List.map p_slot slots; ffree = p_onat ff; lfree = p_onat lf } with _ -> None)
+       | _ -> None)
+  | [] -> None
+
+let p_err = function
+  | "AppendSelf" -> AppendSelf | "PrependSelf" -> PrependSelf | "InsertBeforeSelf" -> InsertBeforeSelf
+  | "InsertAfterSelf" -> InsertAfterSelf | "Removed" -> Removed | "AppendAncestor" -> AppendAncestor
+  | "PrependAncestor" -> PrependAncestor | "InsertBeforeAncestor" -> InsertBeforeAncestor
+  | "InsertAfterAncestor" -> InsertAfterAncestor | s -> failwith ("unknown error variant " ^ s)
+
+type mside = { mar : arena; missued : nid list; mflags : string; mever : int list; mdrops : int list }
+let mfresh () = { mar = empty_arena; missued = []; mflags = ""; mever = []; mdrops = [] }
+
+let monitor (opsf : string) (obsf : string) (outf : string) =
+  let ic = open_in opsf and ib = open_in obsf and oc = open_out outf in
+  let counts : (string, int) Hashtbl.t = Hashtbl.create 16 in
+  let bump p = Hashtbl.replace counts p (1 + (try Hashtbl.find counts p with Not_found -> 0)) in
+  let hist = ref (-1) and stepn = ref 0 in
+  let cur = ref (mfresh ()) and alt : mside option ref = ref None in
+  let pending : (string * op option * outcome option * arena) option ref = ref None in
+  let lastcmd = ref "" in
+  let report prop msg =
+    Printf.fprintf oc "MON %s hist=%d step=%d cmd=[%s] %s\n" prop !hist !stepn !lastcmd msg in
+  let codes l = String.concat "," (List.map (fun c -> string_of_int (int_of_n c)) l) in
+  let mhandle k = List.nth_opt !cur.missued k in
+  let stored (a : arena) = List.filter_map (fun nd -> match nd.data with Data v -> Some (int_of_n v) | _ -> None) a.nodes in
+  let same_multiset l1 l2 = List.sort compare l1 = List.sort compare l2 in
+  let nodup l = let s = List.sort compare l in let rec go = function a :: (b :: _ as r) -> a <> b && go r | _ -> true in go s in
+  let state_checks (a : arena) =
+    bump "C01"; (match c01_check a with [] -> () | l -> report "C01" ("links not a well-formed forest, clauses " ^ codes l));
+    bump "C02"; (match c02_check a with [] -> () | l -> report "C02" ("walk does not end, clauses " ^ codes l));
+    bump "C12"; (match c12_state a with [] -> () | _ -> report "C12" "a removed slot still has links") in
+  let on_arena (a' : arena) =
+    (match !pending with
+     | Some (cmd, Some o, Some out, a0) ->
+         let failed = check_step a0 o out a' in
+         let props = (match o with
+           | OInsert _ -> ["C03"; "C05"; "C12"] | ODetach _ -> ["C03"; "C05"]
+           | ORemove _ | ORemoveSubtree _ -> ["C04"; "C05"; "C08"]
+           | ONew _ -> ["C07"; "C08"; "C05"] | OAppendValue _ -> ["C03"; "C07"; "C12"; "C05"]
+           | OWrite _ -> ["C08"; "C05"] | OClear -> ["C13"] | OReserve _ -> ["C13"]) in
+         List.iter bump props;
+         List.iter (fun c ->
+           let ci = int_of_n c in
+           let dead_arg = (match o with
+             | OInsert (_, _, x, y) -> slot_removed_b a0 x || slot_removed_b a0 y
+             | OAppendValue (p, _) -> slot_removed_b a0 p | _ -> false) in
+           let prop = (match o, ci with
+             | _, (10 | 11 | 12) -> if dead_arg then "C12" else "C05"
+             | (ORemove _ | ORemoveSubtree _), _ -> if ci = 41 then "C08" else "C04"
+             | ONew _, 20 -> "C03" | ONew _, _ -> "C07"
+             | OAppendValue _, 20 -> "C03" | OAppendValue _, _ -> "C07"
+             | OWrite _, _ -> "C08"
+             | (OClear | OReserve _), _ -> "C13"
+             | _, 21 -> "C08"
+             | _, _ -> "C03") in
+           report prop (Printf.sprintf "step effect differs from the documented one (clause %d) after %s" ci cmd);
+           if dead_arg && (ci = 10 || ci = 11 || ci = 12) then report "C05" (Printf.sprintf "insert with a removed node mishandled (clause %d)" ci)) failed
+     | Some (cmd, None, _, a0) ->
+         (match cmd with
+          | "fork" -> bump "C13"; if not (arena_eqb a0 a') then report "C13" "fork changed the original"
+          | "swap" -> bump "C13"     (* cur is already the swapped-in value: a0 is its tracked state *)
+                     ; if not (arena_eqb a0 a') then report "C13" "the other arena value changed while it was not in use"
+          | "serde" -> bump "C16"; if not (arena_eqb a0 a') then report "C16" "deserialize(serialize(a)) differs from a"
+          | _ -> ())
+     | _ -> ());
+    pending := None;
+    cur := { !cur with mar = a' };
+    state_checks a' in
+  (try
+     while true do
+       let line = String.trim (input_line ic) in
+       if line = "" || line.[0] = '#' then ()
+       else begin
+         let obs = (try input_line ib with End_of_file -> "EOF") in
+         lastcmd := line; incr stepn;
+         let toks = String.split_on_char ' ' line in
+         let otoks = String.split_on_char ' ' obs in
+         let outcome_of () = (match otoks with
+           | ["r"; "ok"] -> Some OutUnit | ["r"; "id"; i] -> Some (OutId (p_id i))
+           | ["r"; "err"; e] -> Some (OutErr (p_err e)) | ["r"; "panic"] -> Some (OutPanic N0)
+           | ["r"; "diverge"] -> Some OutDiverge | _ -> None) in
+         let setp o = pending := Some (line, o, outcome_of (), !cur.mar) in
+         let h1 a f = (match mhandle (int_of_string a) with Some x -> setp (Some (f x)) | None -> ()) in
+         let h2 a b f = (match mhandle (int_of_string a), mhandle (int_of_string b) with
+           | Some x, Some y -> setp (Some (f x y)) | _ -> ()) in
+         let new_id v = (match otoks with
+           | ["r"; "id"; i] ->
+               let x = p_id i in
+               bump "C06";
+               if List.exists (fun y -> nid_eqb x y) !cur.missued then report "C06" ("id " ^ i ^ " was issued before");
+               cur := { !cur with missued = !cur.missued @ [x]; mever = v :: !cur.mever }
+           | _ -> ()) in
+         (match toks with
+          | ["hist"; k] -> hist := int_of_string k; stepn := 0; cur := mfresh (); alt := None; pending := None;
+                           Hashtbl.reset rend_tbl
+          | ["new"; v] -> setp (Some (ONew (n_of_int (int_of_string v)))); new_id (int_of_string v)
+          | ["appv"; p; v] -> h1 p (fun x -> OAppendValue (x, n_of_int (int_of_string v))); new_id (int_of_string v)
+          | [("app" | "pre" | "ia" | "ib") as k; a; b] -> h2 a b (fun x y -> OInsert (inskind_of k, false, x, y))
+          | [("capp" | "cpre" | "cia" | "cib") as k; a; b] -> h2 a b (fun x y -> OInsert (inskind_of k, true, x, y))
+          | ["det"; a] -> h1 a (fun x -> ODetach x)
+          | ["rem"; a] -> h1 a (fun x -> ORemove x)
+          | ["rst"; a] -> h1 a (fun x -> ORemoveSubtree x)
+          | ["wr"; a; v] -> h1 a (fun x -> OWrite (x, n_of_int (int_of_string v)));
+                            (match outcome_of () with Some OutUnit -> cur := { !cur with mever = int_of_string v :: !cur.mever } | _ -> ())
+          | ["clear"] -> setp (Some OClear); cur := { !cur with missued = []; mflags = "" }
+          | ["reserve"; k] -> setp (Some (OReserve (nat_of_int (int_of_string k))))
+          | ["fork"] -> alt := Some { !cur with mdrops = []; mever = stored !cur.mar }; pending := Some ("fork", None, None, !cur.mar)
+          | ["swap"] ->
+              (match !alt with
+               | Some a -> let c = !cur in cur := a; alt := Some c
+               | None -> ());
+              pending := Some ("swap", None, None, !cur.mar)
+          | ["serde"] ->
+              (match otoks with
+               | "s" :: "unsupported" :: _ -> ()
+               | "s" :: ts ->
+                   bump "C16";
+                   let expect = List.map s_tok (encode !cur.mar) in
+                   if ts <> expect then report "C16" "serialized token stream differs from the derive's data-model encoding of the arena";
+                   pending := Some ("serde", None, None, !cur.mar)
+               | _ -> report "C16" ("unexpected observation " ^ obs))
+          | ["rend"; v; mode; chunks] ->
+              let cs = if chunks = "-" then [] else List.map bytes_of_hex (String.split_on_char ',' chunks) in
+              Hashtbl.replace rend_tbl (int_of_string v, int_of_string mode) cs
+          | ["qa"] -> (match p_arena obs with Some a' -> on_arena a' | None -> report "C01" ("unparsable arena dump " ^ obs))
+          | ["qeq"] ->
+              (match otoks, !alt with
+               | ["e"; "1"], Some a -> bump "C13"; if not (arena_eqb a.mar !cur.mar) then report "C13" "== says equal, dumps differ"
+               | ["e"; "0"], Some a -> bump "C13"; if arena_eqb a.mar !cur.mar then report "C13" "== says different, dumps equal"
+               | _ -> ())
+          | ["qr"] ->
+              let flags = (match otoks with ["m"; f] -> f | _ -> "") in
+              bump "C06";
+              let a = !cur.mar in
+              List.iteri (fun i x ->
+                if i < String.length flags then begin
+                  let want = if live_b a x then '0' else '1' in
+                  if flags.[i] <> want then report "C06" (Printf.sprintf "is_removed(%s) = %c, expected %c" (s_id x) flags.[i] want);
+                  if i < String.length !cur.mflags && !cur.mflags.[i] = '1' && flags.[i] <> '1' then
+                    report "C06" (Printf.sprintf "is_removed(%s) went back to false" (s_id x))
+                end) !cur.missued;
+              if String.length flags <> List.length !cur.missued then report "C06" "wrong number of is_removed flags";
+              cur := { !cur with mflags = flags }
+          | ["ql"] ->
+              bump "C11";
+              let a = !cur.mar in
+              let c = List.length a.nodes in
+              let want = String.concat " " ("l" :: string_of_int c :: (if c = 0 then "1" else "0")
+                           :: List.init (c + 2) (fun k -> s_oid (spec_id_at a (nat_of_int (k + 1))))) in
+              if want <> obs then report "C11" ("lookup by position: got [" ^ obs ^ "] expected [" ^ want ^ "]")
+          | ["qf"] ->
+              bump "C07";
+              let got = List.sort compare (List.filter_map (fun t -> int_of_string_opt t) (List.tl otoks)) in
+              let want = List.sort compare (List.map int_of_nat (reusable_slots !cur.mar)) in
+              if got <> want then report "C07" ("slots handed out by draining allocations [" ^ obs ^ "] are not exactly the reusable removed slots")
+          | ["qi"; h] ->
+              (match mhandle (int_of_string h) with
+               | None -> ()
+               | Some x ->
+                   bump "C09";
+                   let a = !cur.mar in
+                   let so = function Some l -> s_ids l | None -> "diverge" in
+                   let tr = spec_traverse a x in
+                   let want = String.concat " "
+                     [ "i"; "anc=" ^ so (spec_ancestors a x); "pred=" ^ so (spec_predecessors a x);
+                       "prec=" ^ so (spec_preceding a x); "foll=" ^ so (spec_following a x);
+                       "ch=" ^ s_ids (spec_children a x); "rch=" ^ s_ids (List.rev (spec_children a x));
+                       "desc=" ^ s_ids (spec_descendants a x); "trav=" ^ s_edges tr; "rtrav=" ^ s_edges (List.rev tr);
+                       "nt=" ^ s_edges tr; "pt=" ^ s_edges (List.rev tr) ] in
+                   if want <> obs then begin
+                     report "C09" ("traversal from " ^ s_id x ^ ": got [" ^ obs ^ "] expected [" ^ want ^ "]");
+                     if String.length obs > 0 && (try ignore (Str.search_forward (Str.regexp_string "diverge") obs 0); true with Not_found -> false)
+                     then report "C02" "an iterator did not finish"
+                   end)
+          | ["qd"; h; which; pat] ->
+              (match mhandle (int_of_string h) with
+               | None -> ()
+               | Some x ->
+                   bump "C10";
+                   let k = (match which with "ch" -> DChildren | "prec" -> DPreceding | _ -> DFollowing) in
+                   let pulls = List.map (fun c -> c = 'f') (List.of_seq (String.to_seq pat)) in
+                   (match spec_de_seq k !cur.mar x with
+                    | Some s ->
+                        let want = "d " ^ String.concat "," (List.map (function None -> "-" | Some y -> s_idx1 y) (de_spec s pulls)) in
+                        if want <> obs then report "C10" ("pulls " ^ pat ^ " on " ^ which ^ " of " ^ s_id x ^ ": got [" ^ obs ^ "] expected [" ^ want ^ "]")
+                    | None -> report "C02" "sibling walk does not end"))
+          | ["qp"; h; mode] ->
+              (match mhandle (int_of_string h) with
+               | None -> ()
+               | Some x ->
+                   bump "C14";
+                   let want = "p " ^ hex_of_bytes (spec_print rendering (nat_of_int (int_of_string mode)) !cur.mar x) in
+                   if want <> obs then report "C14" ("pretty print of " ^ s_id x ^ " mode " ^ mode ^ ": got [" ^ obs ^ "] expected [" ^ want ^ "]"))
+          | ["drops"] ->
+              let l = List.filter_map int_of_string_opt (List.tl otoks) in
+              cur := { !cur with mdrops = !cur.mdrops @ l }
+          | ["end"] ->
+              bump "C08";
+              let parts = split_on_string " ;" (String.sub obs 1 (String.length obs - 1)) in
+              let ints s = List.filter_map int_of_string_opt (String.split_on_char ' ' s) in
+              (match parts with
+               | [c; a] ->
+                   let cd = !cur.mdrops @ ints c in
+                   if not (same_multiset cd !cur.mever) then
+                     report "C08" (Printf.sprintf "payload drops of the current arena value are not exactly the payloads it ever held (dropped %d, held %d, duplicates: %b)"
+                                     (List.length cd) (List.length !cur.mever) (not (nodup cd)));
+                   (match !alt with
+                    | Some s -> let ad = s.mdrops @ ints a in
+                                if not (same_multiset ad s.mever) then report "C08" "payload drops of the other arena value are not exactly the payloads it ever held"
+                    | None -> if ints a <> [] then report "C08" "drops reported for a non-existent arena value")
+               | _ -> report "C08" ("unparsable drop line " ^ obs))
+          | _ -> ());
+         (* a drops line right after a removal: dropped payloads must be payloads no longer stored *)
+         ()
+       end
+     done
+   with End_of_file -> ());
+  Hashtbl.iter (fun p c -> Printf.fprintf oc "STAT %s %d\n" p c) counts;
+  close_in ic; close_in ib; close_out oc
+
+
+(* ====================================================================================
+   Macro mode (C15): cases file, one per line:
+     case <i> <id|val> <k pre-existing children> <literal forest as s-expressions: (e kid kid ..) ..>
+   ==================================================================================== *)
+let parse_lits (s : string) : lit list =
+  let n = String.length s in
+  let pos = ref 0 in
+  let skip () = while !pos < n && s.[!pos] = ' ' do incr pos done in
+  let rec lits () : lit list =
+    skip ();
+    if !pos < n && s.[!pos] = '(' then begin
+      incr pos; skip ();
+      let st = !pos in
+      while !pos < n && s.[!pos] >= '0' && s.[!pos] <= '9' do incr pos done;
+      let e = int_of_string (String.sub s st (!pos - st)) in
+      let ks = lits () in
+      skip ();
+      if !pos < n && s.[!pos] = ')' then incr pos;
+      let t = L (n_of_int e, ks) in
+      t :: lits ()
+    end else [] in
+  lits ()
+
+let macro_mode (casesf : string) (outf : string) =
+  let ic = open_in casesf and oc = open_out outf in
+  (try
+     while true do
+       let line = String.trim (input_line ic) in
+       match String.split_on_char ' ' line with
+       | "case" :: i :: form :: k :: rest ->
+           let lits = parse_lits (String.concat " " rest) in
+           let a0 = empty_arena in
+           let (a1, rootform) =
+             if form = "id" then begin
+               match new_node !dbg (n_of_int 1000) a0 with
+               | (a, Ok r) ->
+                   let a = ref a in
+                   for j = 0 to int_of_string k - 1 do
+                     (match append_value !dbg r (n_of_int (1001 + j)) !a with (a', _) -> a := a')
+                   done;
+                   (!a, RootId r)
+               | (a, _) -> (a, RootValue (n_of_int 500))
+             end else (a0, RootValue (n_of_int 500)) in
+           let (a2, res) = tree_macro_full !dbg (n_of_int 9999) (n_of_int 501) rootform lits a1 in
+           let sn (x : nid option) = match x with None -> "-" | Some y -> s_idx1 y in
+           let nodes = String.concat "|" (List.map (fun nd ->
+             Printf.sprintf "%s:%s:%s:%s:%s:%s"
+               (match nd.data with Data v -> string_of_int (int_of_n v) | NextFree _ -> "X")
+               (sn nd.parent) (sn nd.prev) (sn nd.next) (sn nd.first) (sn (node_last nd))) a2.nodes) in
+           (match res with
+            | Ok ((r, log), _) ->
+                Printf.fprintf oc "case %s root=%s log=%s nodes=%s\n" i (s_idx1 r)
+                  (String.concat "," (List.map (fun v -> string_of_int (int_of_n v)) log)) nodes
+            | Panic _ -> Printf.fprintf oc "case %s panic nodes=%s\n" i nodes
+            | Diverge -> Printf.fprintf oc "case %s diverge\n" i)
+       | _ -> ()
+     done
+   with End_of_file -> ());
+  close_in ic; close_out oc
+
 let () =
-  let ops = ref "" and obs = ref "" in
+  let ops = ref "" and obs = ref "" and mon = ref "" and out = ref "" and stamps = ref "" and macro = ref "" in
   let args = Array.to_list Sys.argv in
   let rec parse = function
     | "--ops" :: f :: r -> ops := f; parse r
     | "--obs" :: f :: r -> obs := f; parse r
+    | "--monitor" :: f :: r -> mon := f; parse r
+    | "--out" :: f :: r -> out := f; parse r
+    | "--stamps" :: f :: r -> stamps := f; parse r
+    | "--macro" :: f :: r -> macro := f; parse r
     | "--dbg" :: v :: r -> dbg := (v = "1"); parse r
     | _ :: r -> parse r
     | [] -> () in
   parse (List.tl args);
+  if !macro <> "" then begin macro_mode !macro !out; exit 0 end;
+  if !stamps <> "" then begin
+    (* exhaustive table of the four NodeStamp functions over all i16 values (C06) *)
+    let oc = open_out !stamps in
+    for v = -32768 to 32767 do
+      let z = z_of_int v in
+      let r f = function Ok x -> f x | _ -> "p" in
+      Printf.fprintf oc "%d %s %s %s %s\n" v
+        (if st_is_removed z then "1" else "0")
+        (r (fun x -> string_of_int (int_of_z x)) (st_as_removed !dbg z))
+        (r (fun b -> if b then "1" else "0") (st_reuseable !dbg z))
+        (r (fun x -> let i = string_of_int (int_of_z x) in i ^ "," ^ i) (st_reuse !dbg z))
+    done;
+    close_out oc; exit 0
+  end;
+  if !mon <> "" then begin
+    if !ops = "" || !out = "" then (prerr_endline "usage: runner --ops F --monitor IMPL_OBS --out F"; exit 2);
+    monitor !ops !mon !out; exit 0
+  end;
   if !ops = "" || !obs = "" then (prerr_endline "usage: runner --ops F --obs F [--dbg 0|1]"; exit 2);
   let ic = open_in !ops and oc = open_out !obs in
   (try
